@@ -14,15 +14,12 @@ open FeatModel.GT Finset
 namespace C18L
 
 /-- entry function of `sweep` -/
-def sweepFn (q : Nat) (T : Nat → Nat → Rat) (i j : Nat) : Rat :=
-  let rowq := (if j = q then 1 else T q j) * (1 / T q q)
-  if i = q then rowq else (if j = q then 0 else T i j) - rowq * T i q
+abbrev sweepFn := sweepEntry
 
 theorem get_sweep {n q : Nat} (a : Mat) {i j : Nat} (hi : i < n) (hj : j < n) :
     FeatModel.GT.get (sweep n q a) i j = sweepFn q (FeatModel.GT.get a) i j := by
   unfold sweep
   rw [get_tab _ hi hj]
-  rfl
 
 theorem sweep_exchange {n q : Nat} (T : Nat → Nat → Rat) (w z : Nat → Rat) (hq : q < n) (hd : T q q ≠ 0)
     (h : ∀ i, i < n → ∑ j ∈ range n, T i j * w j = z i) :
@@ -44,10 +41,10 @@ theorem sweep_exchange {n q : Nat} (T : Nat → Nat → Rat) (w z : Nat → Rat)
       apply Finset.sum_congr rfl
       intro j hj
       have hji : j ≠ i := (Finset.mem_erase.1 hj).1
-      simp [sweepFn, hji, Function.update_of_ne hji]
+      simp [sweepFn, sweepEntry, hji, Function.update_of_ne hji]
       ring
     rw [e1]
-    simp only [sweepFn, if_true, Function.update_self]
+    simp only [sweepFn, sweepEntry, if_true, Function.update_self]
     have := hS i hi
     rw [this]
     field_simp
@@ -58,10 +55,10 @@ theorem sweep_exchange {n q : Nat} (T : Nat → Nat → Rat) (w z : Nat → Rat)
       apply Finset.sum_congr rfl
       intro j hj
       have hjq : j ≠ q := (Finset.mem_erase.1 hj).1
-      simp [sweepFn, hiq, hjq, Function.update_of_ne hjq]
+      simp [sweepFn, sweepEntry, hiq, hjq, Function.update_of_ne hjq]
       ring
     rw [e1]
-    simp only [sweepFn, hiq, if_false, if_true, Function.update_self, Function.update_of_ne hiq]
+    simp only [sweepFn, sweepEntry, hiq, if_false, if_true, Function.update_self, Function.update_of_ne hiq]
     have h1 := hS i hi
     have h2 := hS q hq
     rw [h1, h2]
